@@ -194,11 +194,12 @@ func init() {
 		c.Set("evaluations", len(scripts))
 		c.Set("distinct_nontrivial", len(scripts))
 		customAdapterPhase(c, drv)
+		sshAdapterPhase(c, drv)
 		c.Set("rule", "scripts = per-edge output of spec/Download.tla for every finished download: <= MaxReq answers (status 200/206/416/404/500/429 x body exact/suffix/wrong suffix/prefix/extra/bit flip/other object x Content-Range right/wrong/missing/malformed x connection cut) x initial .part in {absent, valid prefix, garbage, size-1, longer} x a file at the final place beforehand {none, same size with other bytes}; sampled round-robin over classes (part x result x status/cut/range pattern)")
 		for i := 0; i < len(scripts); i += len(scripts)/4 + 1 {
 			c.Sample(scripts[i])
 		}
-		c.Assume("basic adapter (HTTP scripts) and custom adapter (agent scripts); the ssh adapter is not yet bound; one process; the object is 4001 bytes so that the size-1 boundary of the resume rule is a cell boundary of the model")
+		c.Assume("basic adapter (HTTP scripts), custom adapter (agent scripts) and pure-SSH adapter (scripted git-lfs-transfer far side, one connection); one process; the object is 4001 bytes so that the size-1 boundary of the resume rule is a cell boundary of the model")
 	}
 }
 
@@ -303,4 +304,129 @@ func customAdapterPhase(c *core.Ctx, drv string) {
 	c.AddInt("distinct_nontrivial", int64(len(scripts)))
 	c.AddInt("traces_validated_against_impl", int64(len(scripts)))
 	c.Set("custom_adapter_rule", "agent scripts = per-edge output of spec/CustomDownload.tla: <= MaxMsgs messages (progress / complete with right or wrong oid, with or without error, naming a file whose content is exact / prefix / extra / bit flip / other / empty / missing; unknown event; unparsable line; end of stream), all of them replayed")
+}
+
+// sshAdapterPhase: spec/SshDownload.tla (transcription of SSHAdapter.doDownload and the framing
+// rules of ssh/protocol.go) is model-checked, its variant without the hash compare must violate
+// OkMeansValid, and every far-side script it generates is played to the real queue + ssh adapter
+// by a scripted git-lfs-transfer started through core.sshCommand.
+type sshAnswerC struct {
+	Status int    `json:"status"`
+	Size   string `json:"size"`
+	Frame  string `json:"frame"`
+	Body   string `json:"body"`
+}
+type sshSpec struct {
+	Final0     string       `json:"final0"`
+	Script     []sshAnswerC `json:"script"`
+	Result     string       `json:"result"`
+	FinalValid bool         `json:"finalValid"`
+	Requests   int          `json:"requests"`
+}
+
+func sshAdapterPhase(c *core.Ctx, drv string) {
+	cfg, maxreq := "SshDownload_q.cfg", 2
+	if !c.Quick() {
+		cfg, maxreq = "SshDownload_t.cfg", 3
+	}
+	gcfg := writeCfgVariant(c, cfg, "SshDownload_gen.cfg", map[string]string{"Emit = FALSE": "Emit = TRUE"})
+	r := c.TLC(core.TLCOpts{Module: "SshDownload", Cfg: gcfg, Workers: 2, Coverage: true, Timeout: 10 * time.Minute})
+	c.MustPass(r, "SshDownload/"+cfg)
+	c.CheckCoverage(r, "Batch", "Get")
+	if rm := c.TLC(core.TLCOpts{Module: "SshDownload", Cfg: "SshDownload_noverify.cfg", Workers: 2, Timeout: 10 * time.Minute}); rm.Violated != "OkMeansValid" {
+		c.Infra("non-vacuity: the ssh-adapter variant without the hash compare violates %q, expected OkMeansValid", rm.Violated)
+	}
+	var scripts []*sshSpec
+	seen := map[string]bool{}
+	if _, err := core.ReadBehaviours(r.OutFile, func(raw []byte) error {
+		if seen[string(raw)] {
+			return nil
+		}
+		seen[string(raw)] = true
+		var s sshSpec
+		if err := json.Unmarshal(raw, &s); err != nil {
+			return err
+		}
+		scripts = append(scripts, &s)
+		return nil
+	}); err != nil {
+		c.Infra("read ssh scripts: %v", err)
+	}
+	if len(scripts) < 100 {
+		c.Infra("only %d ssh scripts", len(scripts))
+	}
+	nproc := 12
+	results := make([]*dlResC, len(scripts))
+	core.Parallel(nproc, nproc, func(p int) {
+		dir := filepath.Join(c.Work, fmt.Sprintf("sdl-%d", p))
+		os.MkdirAll(dir, 0o755)
+		in, out := filepath.Join(dir, "in"), filepath.Join(dir, "out")
+		f, _ := os.Create(in)
+		w := bufio.NewWriter(f)
+		enc := json.NewEncoder(w)
+		for i := p; i < len(scripts); i += nproc {
+			enc.Encode(map[string]interface{}{"id": i, "adapter": "ssh", "answers": scripts[i].Script, "final0": scripts[i].Final0, "maxreq": maxreq - 1})
+		}
+		w.Flush()
+		f.Close()
+		if b, err := driverCmd(c, drv, "dl", in, out).CombinedOutput(); err != nil {
+			c.Infra("dl driver (ssh): %v\n%s", err, core.Tail(string(b), 2000))
+		}
+		of, _ := os.Open(out)
+		defer of.Close()
+		sc := bufio.NewScanner(of)
+		sc.Buffer(make([]byte, 1<<20), 1<<24)
+		for sc.Scan() {
+			var rr dlResC
+			if json.Unmarshal(sc.Bytes(), &rr) == nil && rr.ID < len(results) {
+				cp := rr
+				results[rr.ID] = &cp
+			}
+		}
+	})
+	drift, okSeen, failSeen := 0, 0, 0
+	for i, s := range scripts {
+		rr := results[i]
+		if rr == nil {
+			c.Infra("no result for ssh script %d", i)
+		}
+		if strings.HasPrefix(rr.Result, "infra") {
+			c.Infra("driver: %s", rr.Result)
+		}
+		mk := func(assertion, why string) {
+			c.Report(core.Violation{Assertion: assertion, Fields: map[string]string{"adapter": "ssh", "final0": s.Final0, "spec_result": s.Result},
+				Detail: map[string]interface{}{"why": why, "far_side_script": s, "observed": rr}})
+		}
+		switch {
+		case rr.Result == "ok" && rr.Final != "valid":
+			mk("success-means-hash-valid-object", fmt.Sprintf("download reported success but the file at the object's place is %s (%d bytes)", rr.Final, rr.FinalLen))
+		case rr.Result == "fail" && s.Final0 == "stale" && rr.Final == "stale":
+		case rr.Result == "fail" && rr.Final != "absent":
+			mk("failure-leaves-no-final-file", fmt.Sprintf("download reported failure but a %s file (%d bytes) sits at the object's final place", rr.Final, rr.FinalLen))
+		case rr.Final == "corrupt":
+			mk("final-file-hashes-to-its-name", "a file whose bytes do not hash to the oid was put into local storage")
+		case len(rr.StrayFiles) > 0:
+			mk("temporaries-confined-to-incomplete", fmt.Sprintf("files outside incomplete/: %v", rr.StrayFiles))
+		case rr.Result != s.Result || len(rr.Ranges) != s.Requests || len(rr.Leftovers) > 0:
+			drift++
+			if drift <= 3 {
+				c.Set(fmt.Sprintf("ssh_adapter_drift_sample_%d", drift), map[string]interface{}{"far_side_script": s, "observed": rr})
+			}
+		}
+		if rr.Result == "ok" {
+			okSeen++
+		} else {
+			failSeen++
+		}
+	}
+	if okSeen == 0 || failSeen == 0 {
+		c.Infra("ssh adapter phase is vacuous: %d successes, %d failures observed", okSeen, failSeen)
+	}
+	c.Set("ssh_adapter_scripts", len(scripts))
+	c.Set("ssh_adapter_states", r.Distinct)
+	c.Set("ssh_adapter_drift_differs_from_implementation_model", drift)
+	c.AddInt("evaluations", int64(len(scripts)))
+	c.AddInt("distinct_nontrivial", int64(len(scripts)))
+	c.AddInt("traces_validated_against_impl", int64(len(scripts)))
+	c.Set("ssh_adapter_rule", "far-side scripts = per-edge output of spec/SshDownload.tla: <= MaxReq answers to get-object (status 200/206/404/500 x size argument right/other/missing/twice/malformed/negative x framing ok/flush instead of delimiter/no status line/far side dies mid-body x body exact/prefix/extra/bit flip/other/empty) x a file at the final place beforehand {none, same size with other bytes}; all of them replayed through core.sshCommand")
 }
